@@ -189,8 +189,13 @@ def injections : Nat → Nat → List Nat → List (List Nat)
     ((List.range m).filter (fun v => !acc.contains v)).flatMap
       (fun v => injections k m (acc ++ [v]))
 
+/-- `candidate_labels[q1]` is empty: no vertex of `h` has degree ≥ deg(q1). -/
+def noCandidate (g h : G) (q1 : Nat) : Bool :=
+  (List.range h.n).all (fun q2 => !((g.adj q1).length ≤ (h.adj q2).length))
+
 def G.isEmbeddedIn (g h : G) : Bool :=
   if g.n > h.n then false else
+  if (List.range g.n).any (noCandidate g h) then false else
   (injections g.n h.n []).any (fun f =>
     g.edges.all (fun e => h.hasEdge (f.getD e.1 0) (f.getD e.2 0)))
 
@@ -199,7 +204,10 @@ def allToAllRaw (n : Nat) : List (Nat × Nat) :=
   (List.range n).flatMap (fun a => ((List.range n).filter (a < ·)).map (fun b => (a, b)))
 def linearRaw (n : Nat) : List (Nat × Nat) := (List.range (n - 1)).map (fun x => (x, x + 1))
 /-- `ring(n)`: `[(x,x+1) …] + [(0, n-1)]`; for `n = 1` the extra pair is the
-self loop (0,0) and for `n = 0` it is (0,-1): the constructor raises. -/
+self loop (0,0): the constructor raises.  For `n = 0` the pair is (0,-1), which is
+outside the model's vertex type (Python accepts it through negative-index aliasing
+and returns a malformed one-vertex graph with the edge (-1,0)); `none` here,
+`n = 0` is outside the documented domain and not compared. -/
 def ringRaw (n : Nat) : Option (List (Nat × Nat)) :=
   if n == 0 then none else some (linearRaw n ++ [(0, n - 1)])
 def starRaw (n : Nat) : List (Nat × Nat) := (List.range' 1 (n - 1)).map (fun x => (0, x))
@@ -231,6 +239,10 @@ def digits (r n x : Nat) : List Nat :=
 def undigits (r : Nat) (ds : List Nat) : Nat := ds.foldl (fun acc d => acc * r + d) 0
 def swapDigits (ds : List Nat) (a b : Nat) : List Nat :=
   (ds.set a (ds.getD b 0)).set b (ds.getD a 0)
+
+/-- `gen_swap_unitary(radix)`: the row holding the 1 of column `col`
+(`a = col // radix; b = col % radix; row = b * radix + a`). -/
+def genSwapRow (r col : Nat) : Nat := (col % r) * r + col / r
 
 /-- The resulting permutation matrix as a function column ↦ row
 (`P[row, col] = 1`).  `apply_left(S)` puts `S` on the left *of the circuit
